@@ -252,6 +252,10 @@ func (tc *twoChain) deliver(chain int) {
 }
 
 func (tc *twoChain) pickCrash() string {
+	if tc.p.Replicas && !tc.draining && tc.r.Chance(1, 8) {
+		// the main node sees an aborted optimistic execution; its replicas execute the block once
+		return "aborted-optimistic-execution"
+	}
 	if tc.p.Faults && !tc.draining && tc.r.Chance(1, 12) {
 		return []string{"before-finalize", "after-finalize-before-commit", "after-commit", "aborted-optimistic-execution"}[tc.r.Intn(4)]
 	}
